@@ -32,9 +32,20 @@ def gen_cases(rng, tier: str) -> list[dict]:
     return cases
 
 
+def node_vars(e) -> tuple:
+    """the variable-name set every node (object) reports, in tree order - what decides whether a bare
+    number / Derivative is accepted for it"""
+    out = [tuple(sorted(e._variable_names))]
+    for c in wire.children(e):
+        out.extend(node_vars(c))
+    return tuple(out)
+
+
 def snapshot_expr(e, p0: Point) -> tuple:
     ids: dict = {}
-    return (wire.expr(e, ids=ids), repr(e), str(e), call(e.at, p0), hash(e))
+    bare = call(e.at, 1.25)
+    return (wire.expr(e, ids=ids), repr(e), str(e), call(e.at, p0), hash(e), node_vars(e),
+            bare if bare[0] == "ok" else bare[1])
 
 
 def check_cases(cases: list[dict], rep: Report, known: dict) -> None:
@@ -63,7 +74,7 @@ def check_cases(cases: list[dict], rep: Report, known: dict) -> None:
             for i, e in enumerate(pool):
                 now = snapshot_expr(e, p0)
                 if now != snaps[i]:
-                    what = [n for n, a, b in zip(("structure/sharing", "repr", "str", "value", "hash"), snaps[i], now) if a != b]
+                    what = [n for n, a, b in zip(("structure/sharing", "repr", "str", "value", "hash", "variable sets", "at(number)"), snaps[i], now) if a != b]
                     rep.violation(f"pool expression {i} changed ({', '.join(what)}) after operation {k} ({op['op']}): "
                                   f"{snaps[i][1][:200]} -> {now[1][:200]}", info)
                     ok = False
@@ -87,8 +98,48 @@ def check_cases(cases: list[dict], rep: Report, known: dict) -> None:
     helpers(rep)
 
 
+def construction_keeps_operands(rep: Report) -> None:
+    """building a new expression (by constructor or operator - the library itself does this all the
+    time while differentiating and rewriting) leaves the operand objects as they were"""
+    p0 = Point(x=1.5, y=2.5, z=0.75)
+    mk = {
+        "Add": lambda a, b: X.Add(a, b), "Multiply": lambda a, b: X.Multiply(a, b), "Add3": lambda a, b: X.Add(b, a, b),
+        "Minus": X.Minus, "Divide": X.Divide, "Power": X.Power, "+": lambda a, b: a + b, "-": lambda a, b: a - b,
+        "*": lambda a, b: a * b, "/": lambda a, b: a / b, "**": lambda a, b: a ** b,
+        "Negation": lambda a, b: X.Negation(a), "NthPower": lambda a, b: X.NthPower(a, 3), "**3": lambda a, b: a ** 3,
+        "Logarithm": lambda a, b: X.Logarithm(a, base=2), "Exponential": lambda a, b: X.Exponential(a),
+        "Partial": lambda a, b: sm.Partial(X.Power(a, b), "y").as_expression(),
+        "Differential": lambda a, b: sm.Differential(X.Divide(a, b), compute_early=True),
+        "Located": lambda a, b: sm.LocatedDifferential(X.Minus(a, b), p0),
+    }
+    operands = [
+        lambda: (X.Variable("x"), X.Variable("y")),
+        lambda: (X.Sine(X.Variable("x")), X.Multiply(X.Variable("y"), X.Variable("z"))),
+        lambda: (X.Exponential(X.Constant(0.0)), X.Variable("y")),
+        lambda: (X.Add(X.NthPower(X.Variable("x"), 2), X.Constant(1.0)), X.Reciprocal(X.Variable("z"))),
+    ]
+    for name, f in mk.items():
+        for ops in operands:
+            a, b = ops()
+            before = (snapshot_expr(a, p0), snapshot_expr(b, p0))
+            inner_before = [snapshot_expr(c, p0) for c in wire.children(a)]
+            made = call(lambda: f(a, b), timeout=20)
+            rep.evaluations += 1
+            if made[0] != "ok":
+                rep.violation(f"constructing {name} raised {made[1]}", {"constructor": name})
+                continue
+            after = (snapshot_expr(a, p0), snapshot_expr(b, p0))
+            inner_after = [snapshot_expr(c, p0) for c in wire.children(a)]
+            if before != after or inner_before != inner_after:
+                which = [n for n, x_, y_ in zip(("structure/sharing", "repr", "str", "value", "hash", "variable sets", "at(number)") * 2,
+                                                before[0] + before[1], after[0] + after[1]) if x_ != y_]
+                rep.violation(f"building {name}(a, b) changed an operand ({', '.join(which) or 'inner operand'}): a = {before[0][1][:120]}",
+                              {"constructor": name, "a": before[0][0], "b": before[1][0]})
+
+
 def helpers(rep: Report) -> None:
     """copy-on-write list helpers and Point's own dictionary"""
+    construction_keeps_operands(rep)
     xs = [1, 2, 3]
     for i in range(-5, 6):
         a = util.list_without_entry_at(xs, i)
